@@ -242,29 +242,54 @@ Print Assumptions c04_latest_checkpoint_order_independent.
 
 (* ---------------------------------------------------------------- continuities/index.json (only the default-thread recovery is claimed) *)
 Theorem c04_default_recovery :
-  forall (ws : N) (cs : list created) (id : N),
-  recover_default ws cs = Some id -> exists c, In c cs /\ cr_id c = id /\ cr_ws c = ws.
-Proof. exact default_recovery_existing. Qed.
+  forall (ws : N) (cs : list created) (children : list N) (id : N),
+  recover_default_fixed ws cs children = Some id -> exists c, In c cs /\ cr_id c = id /\ cr_ws c = ws.
+Proof. exact default_recovery_existing_fixed. Qed.
 Print Assumptions c04_default_recovery.
 
 Theorem c04_default_recovery_creates_only_when_none :
-  forall (ws : N) (cs : list created),
-  recover_default ws cs = None -> forall c, In c cs -> cr_ws c <> ws.
-Proof. exact default_recovery_none. Qed.
+  forall (ws : N) (cs : list created) (children : list N),
+  recover_default_fixed ws cs children = None -> forall c, In c cs -> cr_ws c <> ws.
+Proof. exact default_recovery_none_fixed. Qed.
 Print Assumptions c04_default_recovery_creates_only_when_none.
 
+(* the identity of the default is recovered whenever it is the only thread of the workspace that is not a branch /
+   handoff child, however many children there are (S15, fixed in /repo: the scan skips threads whose stream carries a
+   continuity_branched / continuity_handoff_created frame).  Still partial with respect to "the default thread": a
+   workspace with several ROOT threads keeps the newest-root heuristic (the log does not record which one was default) *)
 Theorem c04_default_recovery_identity_partial :
-  forall (ws ts id : N) (others : list created),
-  (forall c, In c others -> cr_ws c <> ws) ->
-  recover_default ws ((ts, id, ws) :: others) = Some id.
-Proof. exact default_recovery_single. Qed.
+  forall (ws ts id : N) (others : list created) (children : list N),
+  ~ In id children ->
+  (forall c, In c others -> cr_ws c <> ws \/ In (cr_id c) children) ->
+  recover_default_fixed ws ((ts, id, ws) :: others) children = Some id.
+Proof. exact default_recovery_root. Qed.
 Print Assumptions c04_default_recovery_identity_partial.
 
-(* S15 (open): default thread 1 created at t=100, its branch child 2 at t=105, same workspace key *)
+(* S15 on the scan before the fix (`recover_default` alone): default thread 1 created at t=100, its branch child 2 at
+   t=105, same workspace key: the child was returned; the repaired scan returns thread 1 *)
 Theorem c04_default_recovery_identity_refuted :
-  recover_default 7 [(100, 1, 7); (105, 2, 7)] = Some 2.
+  recover_default 7 [(100, 1, 7); (105, 2, 7)] = Some 2
+  /\ recover_default_fixed 7 [(100, 1, 7); (105, 2, 7)] [2] = Some 1.
 Proof. exact default_recovery_child. Qed.
 Print Assumptions c04_default_recovery_identity_refuted.
+
+(* ---------------------------------------------------------------- zero-length derived sidecars (S4c, fixed in /repo) *)
+(* a zero-length `.comp.v1.jsonl` is read as a lost sidecar (rebuilt from the full sidecar like a missing one); the reader
+   before the fix scanned it as a complete empty history: "no checkpoint" on a thread whose latest checkpoint is frame 3.
+   With the fix a zero-length file is OUTSIDE K2 (CompFaithful / CompFaithfulC / MrFaithful treat it as absent), so the
+   transparency theorems above cover it. *)
+Theorem c04_zero_length_checkpoint_sidecar_is_absent :
+  forall (me mb : N) (full : sfile) (mt : N),
+  latest_ckpt_cache me mb (Some []) full mt = latest_ckpt_cache me mb None full mt.
+Proof. exact zero_length_comp_is_absent. Qed.
+Print Assumptions c04_zero_length_checkpoint_sidecar_is_absent.
+
+Theorem c04_zero_length_checkpoint_sidecar_refuted :
+  latest_ckpt_cache_unfixed 100 1000 (Some []) (Some (project_full wlog3)) U64MAX = CkSome None
+  /\ latest_ckpt_cache 100 1000 (Some []) (Some (project_full wlog3)) U64MAX = CkSome (Some (wck 3 2))
+  /\ CompFaithful wlog3 (Some []) (Some (project_full wlog3)).
+Proof. exact zero_length_comp_unfixed. Qed.
+Print Assumptions c04_zero_length_checkpoint_sidecar_refuted.
 
 (* ---------------------------------------------------------------- cut points through the caches *)
 (* compaction_cut_points_v1 on a store whose ordinal index is the projection (count and ordinal look-ups
